@@ -53,6 +53,10 @@ structure SS where
   blocks : List Nat        -- indices of the blocks stored by AddBlock, in the order they were stored
   jumped : Bool            -- Blockchain.jumpToState(P) was made
 
+/-- The height below the window of blocks: `P − MaxTraceableBlocks`, or 0 (getLatestSavedBlock, module.go:450-452;
+tied by translation in Proofs/GoFuncs/C20Sync.lean). The driver checks the `b0` of every case against it. -/
+def windowBase (p mtb : Nat) : Nat := if p > mtb then p - mtb else 0
+
 def SS.init (c : SCfg) : SS :=
   { stage := .headers, hh := 0, bh := 0, storedBh := 0, bs := BS.init c.root, blocks := [], jumped := false }
 
